@@ -693,8 +693,21 @@ def parser_entry_guarded(P):
                     continue
                 if ch.root(gt["args"][0])[0] != text_root:
                     continue
-                loops_over_chars = any(MU.callee_names(t2)[1].endswith("::chars") for _, t2, _, _ in P.call_sites(gk[0])) and bool(G.back_edges(gb))
-                has_limit = any(st["k"] == "assign" and st["rv"]["k"] == "bin" and st["rv"]["op"] in ("Gt", "Ge") for bl in gb["blocks"] for st in bl["stmts"])
+                # the guard walks the characters of that text: a loop whose iterator is derived from the text parameter, and the
+                # text is turned into characters somewhere in the guard (directly or in a closure / grammar helper it uses)
+                reach_g = P.reachable([gk[0]])
+                uses_chars = any(MU.callee_names(t2)[1].endswith("::chars") for kk in reach_g if kk.startswith(gk[0]) for _, t2, _, _ in P.call_sites(kk))
+                derived = False
+                for head, nodes in natural_loops(gb).items():
+                    for x in nodes:
+                        t2 = gb["blocks"][x]["term"]
+                        if t2["k"] == "call" and MU.callee_names(t2)[1].endswith("::next") and "Iterator" in MU.callee_names(t2)[1]:
+                            locs, consts, calls, places = MU.backward_slice(gb, t2["args"][:1])
+                            if 1 in locs:
+                                derived = True
+                loops_over_chars = uses_chars and derived
+                has_limit = any(st["k"] == "assign" and st["rv"]["k"] == "bin" and st["rv"]["op"] in ("Gt", "Ge") and const_int(st["rv"]["r"]) is not None
+                                for bl in gb["blocks"] for st in bl["stmts"])
                 if not (loops_over_chars and has_limit):
                     continue
                 # the call of the parser must be dominated by the guard's true edge
@@ -727,7 +740,7 @@ def parser_entry_guarded(P):
 # ------------------------------------------------------------------------------------------------ 3. loops
 FINITE_ITER = re.compile(r"^(&mut )?(std::slice::(Iter|IterMut|Chunks|ChunksExact|Windows)|std::vec::IntoIter|std::str::(Chars|CharIndices|Lines|Bytes|Split\w*)|"
                          r"std::ops::Range<|std::ops::RangeInclusive<|std::collections::hash_map::(Iter|Keys|Values|IntoIter)|std::collections::btree_(map|set)::\w+|"
-                         r"std::iter::(Enumerate|Skip|Rev|Peekable|Map|Filter|FilterMap|Zip|Take|Cloned|Copied|Chain|StepBy|TakeWhile|SkipWhile)<|std::io::Lines<|std::option::(Iter|IntoIter)|I$)")
+                         r"std::iter::(Enumerate|Skip|Rev|Peekable|Map|Filter|FilterMap|FlatMap|Flatten|Zip|Take|Cloned|Copied|Chain|StepBy|TakeWhile|SkipWhile)<|std::io::Lines<|std::option::(Iter|IntoIter)|I$)")
 INFINITE_ITER = re.compile(r"std::iter::(Repeat|RepeatWith|Cycle|Successors|FromFn)\b|std::ops::RangeFrom")
 
 
